@@ -180,6 +180,10 @@ def finish(res, level_text):
         "broken": res.broken[:10],
         "notes": res.notes[:40],
     }
+    if not res.obligations:
+        # build/audit did not run or broke: fall back to the exploration-style keys only
+        del cov["obligations"], cov["discharged"]
+        cov["explanation"] = "no theorem was checked in this run (build broken or --no-build); see 'broken'"
     cov.update(res.extra)
     ev = {"property_id": pid, "tier": res.tier, "seed": int(res.seed), "level": "proof", "coverage": cov,
           "assumptions": res.assumptions or TRUSTED_BASE, "wall_s": wall, "violations": len(res.violations) + (1 if res.broken and not res.violations else 0)}
